@@ -1,8 +1,10 @@
 /-
   Property C18, general serialisability, part 2: LOCAL UPDATES of a connection (`Upd`: its record,
-  its reply buffer, its program counter), the simultaneous local updates of many connections
-  (`applyOn`), and the fact that a section of connection `c` commutes with the local updates of all
-  other connections (for KILL / DIE / SQUIT: where these connections own no user).
+  its reply buffer, its program counter; plus the pending bump of a command counter), the
+  simultaneous local updates of many connections (`applyOn`), and the fact that a section of
+  connection `c` commutes with the local updates of all other connections (for KILL / DIE / SQUIT:
+  where these connections own no user; for a pending counter bump: if the section commutes with
+  `bumpCount`).
 -/
 import Irc.Props.C18GeneralLemmas1
 
@@ -18,8 +20,19 @@ structure Upd where
   conn : Option Conn := none
   dir : List Str := []
   pc : Option Pc := none
+  /-- the relaxed-atomic counter bump of a split command that is not yet serialised: not a local
+      component, but it commutes with every section that is not a `STATS m` -/
+  cnt : Option Nat := none
 
 def idU : Upd := {}
+
+/-- `command_counts[i].fetch_add(1)` on the state of the run -/
+def bumpW (i : Nat) (σ : CState) : CState := { σ with w := bumpCount σ.w i }
+
+def bumpO (o : Option Nat) (σ : CState) : CState :=
+  match o with
+  | some i => bumpW i σ
+  | none => σ
 
 def setConnO (o : Option Conn) (σ : CState) : CState :=
   match o with
@@ -32,7 +45,7 @@ def setPcO (c : Nat) (o : Option Pc) (σ : CState) : CState :=
   | none => σ
 
 def Upd.app (u : Upd) (c : Nat) (σ : CState) : CState :=
-  setPcO c u.pc ((setConnO u.conn σ).addDir c u.dir)
+  setPcO c u.pc ((setConnO u.conn (bumpO u.cnt σ)).addDir c u.dir)
 
 /-- the record written is one of connection `c` -/
 def Upd.Proper (u : Upd) (c : Nat) : Prop := ∀ cn, u.conn = some cn → cn.id = c
@@ -41,16 +54,34 @@ theorem idU_proper (c : Nat) : idU.Proper c := by
   intro cn h; cases h
 
 theorem idU_app (c : Nat) (σ : CState) : idU.app c σ = σ := by
-  simp only [Upd.app, idU, setPcO, setConnO]
+  simp only [Upd.app, idU, setPcO, setConnO, bumpO]
   exact CState.addDir_nil σ c
+
+/-! ### what a pending bump leaves alone -/
+
+@[simp] theorem bumpO_users (o : Option Nat) (σ : CState) : (bumpO o σ).w.users = σ.w.users := by
+  cases o <;> rfl
+@[simp] theorem bumpO_sent (o : Option Nat) (σ : CState) : (bumpO o σ).sent = σ.sent := by
+  cases o <;> rfl
+@[simp] theorem bumpO_pc (o : Option Nat) (σ : CState) : (bumpO o σ).pc = σ.pc := by
+  cases o <;> rfl
+@[simp] theorem bumpO_dir (o : Option Nat) (σ : CState) : (bumpO o σ).dir = σ.dir := by
+  cases o <;> rfl
+@[simp] theorem bumpO_conn (o : Option Nat) (σ : CState) (d : Nat) :
+    (bumpO o σ).w.conn? d = σ.w.conn? d := by
+  cases o <;> rfl
+
+theorem bumpO_setConn (o : Option Nat) (σ : CState) (cn : Conn) :
+    bumpO o (σ.setConn cn) = (bumpO o σ).setConn cn := by
+  cases o <;> rfl
 
 theorem Upd.app_users (u : Upd) (c : Nat) (σ : CState) : (u.app c σ).w.users = σ.w.users := by
   unfold Upd.app setPcO setConnO
-  cases u.pc <;> cases u.conn <;> rfl
+  cases u.pc <;> cases u.conn <;> simp
 
 theorem Upd.app_sent (u : Upd) (c : Nat) (σ : CState) : (u.app c σ).sent = σ.sent := by
   unfold Upd.app setPcO setConnO
-  cases u.pc <;> cases u.conn <;> rfl
+  cases u.pc <;> cases u.conn <;> simp
 
 theorem Upd.app_pc_ne (u : Upd) {c d : Nat} (σ : CState) (h : d ≠ c) :
     (u.app c σ).pc d = σ.pc d := by
@@ -66,10 +97,10 @@ theorem Upd.app_conn_ne {u : Upd} {c d : Nat} (hu : u.Proper c) (σ : CState) (h
     (u.app c σ).w.conn? d = σ.w.conn? d := by
   unfold Upd.app setPcO setConnO
   cases hc : u.conn with
-  | none => cases u.pc <;> rfl
+  | none => cases u.pc <;> exact bumpO_conn _ _ _
   | some cn =>
     have hid : cn.id ≠ d := by rw [hu cn hc]; exact fun e => h e.symm
-    cases u.pc <;> exact conn?_setConn_ne _ _ _ hid
+    cases u.pc <;> exact (conn?_setConn_ne _ _ _ hid).trans (bumpO_conn _ _ _)
 
 theorem Upd.app_pc_self (u : Upd) (c : Nat) (σ : CState) :
     (u.app c σ).pc c = u.pc.getD (σ.pc c) := by
@@ -84,17 +115,61 @@ theorem Upd.app_dir_self (u : Upd) (c : Nat) (σ : CState) :
 theorem Upd.app_conn_self {u : Upd} {c : Nat} (hu : u.Proper c) {σ : CState} {cn0 : Conn}
     (h : σ.w.conn? c = some cn0) :
     (u.app c σ).w.conn? c = some (u.conn.getD cn0) := by
+  have h' : (bumpO u.cnt σ).w.conn? c = some cn0 := (bumpO_conn _ _ _).trans h
   unfold Upd.app setPcO setConnO
   cases hc : u.conn with
-  | none => cases u.pc <;> exact h
-  | some cn => cases u.pc <;> exact conn?_setConn_self cn h (hu cn hc)
+  | none => cases u.pc <;> exact h'
+  | some cn => cases u.pc <;> exact conn?_setConn_self cn h' (hu cn hc)
 
 /-! ### updates of different connections commute -/
 
+theorem bumpCount_comm (w : World) (i j : Nat) :
+    bumpCount (bumpCount w i) j = bumpCount (bumpCount w j) i := by
+  unfold bumpCount
+  simp only
+  congr 1
+  by_cases h : i = j
+  · subst h; rfl
+  · have h' : j ≠ i := fun e => h e.symm
+    rw [List.getD_eq_getElem?_getD, List.getD_eq_getElem?_getD, List.getD_eq_getElem?_getD,
+      List.getD_eq_getElem?_getD, List.getElem?_set_ne h, List.getElem?_set_ne h',
+      List.set_comm _ _ h]
+
+/-- the effect of an update on the world -/
+def worldOf (conn : Option Conn) (cnt : Option Nat) (w : World) : World :=
+  let w := match cnt with
+    | some i => bumpCount w i
+    | none => w
+  match conn with
+  | some cn => w.setConn cn
+  | none => w
+
 theorem Upd.app_w (u : Upd) (c : Nat) (σ : CState) :
-    (u.app c σ).w = (setConnO u.conn σ).w := by
-  unfold Upd.app setPcO
-  cases u.pc <;> rfl
+    (u.app c σ).w = worldOf u.conn u.cnt σ.w := by
+  unfold Upd.app setPcO setConnO bumpO worldOf
+  cases u.pc <;> cases u.conn <;> cases u.cnt <;> rfl
+
+theorem bump_setConn (w : World) (cn : Conn) (i : Nat) :
+    bumpCount (w.setConn cn) i = (bumpCount w i).setConn cn := rfl
+
+theorem worldOf_comm {a b : Option Conn} {i j : Option Nat}
+    (h : ∀ x y, a = some x → b = some y → x.id ≠ y.id) (w : World) :
+    worldOf a i (worldOf b j w) = worldOf b j (worldOf a i w) := by
+  have hb : ∀ w : World, ∀ i j, bumpCount (bumpCount w i) j = bumpCount (bumpCount w j) i :=
+    bumpCount_comm
+  cases a with
+  | none =>
+    cases b <;> cases i <;> cases j <;> simp only [worldOf, bump_setConn] <;>
+      first | rfl | rw [hb]
+  | some x =>
+    cases b with
+    | none =>
+      cases i <;> cases j <;> simp only [worldOf, bump_setConn] <;> first | rfl | rw [hb]
+    | some y =>
+      have hxy := h x y rfl rfl
+      have e : ∀ w : World, (w.setConn y).setConn x = (w.setConn x).setConn y :=
+        fun w => setConn_comm w y x (fun e => hxy e.symm)
+      cases i <;> cases j <;> simp only [worldOf, bump_setConn, e] <;> first | rfl | rw [hb]
 
 theorem Upd.app_pc (u : Upd) (c : Nat) (σ : CState) :
     (u.app c σ).pc = fun d => if d = c then u.pc.getD (σ.pc d) else σ.pc d := by
@@ -112,22 +187,9 @@ theorem Upd.app_dir (u : Upd) (c : Nat) (σ : CState) :
 
 theorem Upd.app_comm {u v : Upd} {c d : Nat} (hu : u.Proper c) (hv : v.Proper d) (h : c ≠ d)
     (σ : CState) : u.app c (v.app d σ) = v.app d (u.app c σ) := by
-  have hdc : ¬ d = c := fun e => h e.symm
   ext e
-  · rw [Upd.app_w, Upd.app_w]
-    unfold setConnO
-    cases huc : u.conn with
-    | none =>
-      cases hvc : v.conn with
-      | none => simp only [Upd.app_w, setConnO, huc, hvc, CState.setConn_w]
-      | some b => simp only [Upd.app_w, setConnO, huc, hvc, CState.setConn_w]
-    | some a =>
-      cases hvc : v.conn with
-      | none => simp only [Upd.app_w, setConnO, huc, hvc, CState.setConn_w]
-      | some b =>
-        simp only [Upd.app_w, setConnO, huc, hvc, CState.setConn_w]
-        rw [setConn_comm]
-        rw [hu a huc, hv b hvc]; exact hdc
+  · rw [Upd.app_w, Upd.app_w, Upd.app_w, Upd.app_w]
+    exact worldOf_comm (fun x y hx hy => by rw [hu x hx, hv y hy]; exact h) _
   · simp only [Upd.app_pc]
     by_cases h1 : e = c
     · subst h1; simp [h]
@@ -269,6 +331,15 @@ def isProg : Section → Bool
   | .teardown _ => false
   | _ => true
 
+/-- a whole command (`handleLine`) -/
+def isWhole : Section → Bool
+  | .whole _ _ => true
+  | _ => false
+
+/-- the section commutes with every bump of a command counter (false exactly for `STATS m`) -/
+def BumpComm (cfg : Cfg) (s : Section) : Prop :=
+  ∀ i σ, stepSection cfg s (bumpW i σ) = bumpW i (stepSection cfg s σ)
+
 theorem step_comm_pc (cfg : Cfg) {s : Section} {d : Nat} (hne : s.conn ≠ d) (σ : CState) (p : Pc) :
     stepSection cfg s (σ.setPc d p) = (stepSection cfg s σ).setPc d p := by
   simp only [stepSection, sectionCtx, CState.setPc, hne, ↓reduceIte]
@@ -321,11 +392,6 @@ theorem secIndep_or_whole (cfg : Cfg) {s : Section} {d : Nat} (hne : s.conn ≠ 
   | touch c => exact .inl (secIndep_touch cfg hne)
   | teardown c => cases hp
 
-/-- a whole command (`handleLine`) -/
-def isWhole : Section → Bool
-  | .whole _ _ => true
-  | _ => false
-
 /-- … with every replacement of the record of `d`; for a whole command: where `d` owns no user -/
 theorem step_comm_conn (cfg : Cfg) {s : Section} {d : Nat} (hne : s.conn ≠ d)
     (hp : isProg s = true) {σ : CState} (hown : isWhole s = true → NoOwn d σ.w) (cn : Conn)
@@ -350,54 +416,68 @@ theorem step_conn_ne (cfg : Cfg) {s : Section} {d : Nat} (hne : s.conn ≠ d)
 
 theorem step_comm_app (cfg : Cfg) {s : Section} {d : Nat} (hne : s.conn ≠ d)
     (hp : isProg s = true) {σ : CState} (hown : isWhole s = true → NoOwn d σ.w) {u : Upd}
-    (hu : u.Proper d) :
+    (hu : u.Proper d) (hb : u.cnt = none ∨ BumpComm cfg s) :
     stepSection cfg s (u.app d σ) = u.app d (stepSection cfg s σ) := by
+  have hbump : stepSection cfg s (bumpO u.cnt σ) = bumpO u.cnt (stepSection cfg s σ) := by
+    cases hc : u.cnt with
+    | none => rfl
+    | some i =>
+      rcases hb with e | e
+      · rw [hc] at e; cases e
+      · exact e i σ
+  have hown' : isWhole s = true → NoOwn d (bumpO u.cnt σ).w := by
+    intro hw n usr hl
+    rw [bumpO_users] at hl
+    exact hown hw n usr hl
   unfold Upd.app setPcO setConnO
   cases hc : u.conn with
   | none =>
     cases u.pc with
-    | none => exact step_comm_dir cfg hne _ _
-    | some p => simp only [step_comm_pc cfg hne, step_comm_dir cfg hne]
+    | none => simp only [step_comm_dir cfg hne, hbump]
+    | some p => simp only [step_comm_pc cfg hne, step_comm_dir cfg hne, hbump]
   | some cn =>
     cases u.pc with
-    | none => simp only [step_comm_dir cfg hne, step_comm_conn cfg hne hp hown cn (hu cn hc)]
+    | none =>
+      simp only [step_comm_dir cfg hne, step_comm_conn cfg hne hp hown' cn (hu cn hc), hbump]
     | some p =>
       simp only [step_comm_pc cfg hne, step_comm_dir cfg hne,
-        step_comm_conn cfg hne hp hown cn (hu cn hc)]
+        step_comm_conn cfg hne hp hown' cn (hu cn hc), hbump]
 
 /-- a section of `c` commutes with the local updates of all other connections -/
 theorem step_comm_applyOn (cfg : Cfg) {s : Section} (hp : isProg s = true) {cs : List Nat}
     {e : Nat → Upd} {ρ : CState}
     (h : ∀ d ∈ cs, e d = idU ∨
-      (s.conn ≠ d ∧ (e d).Proper d ∧ (isWhole s = true → NoOwn d ρ.w))) :
+      (s.conn ≠ d ∧ (e d).Proper d ∧ (isWhole s = true → NoOwn d ρ.w) ∧
+        ((e d).cnt = none ∨ BumpComm cfg s))) :
     stepSection cfg s (applyOn cs e ρ) = applyOn cs e (stepSection cfg s ρ) := by
   induction cs with
   | nil => rfl
   | cons a cs ih =>
     rw [applyOn_cons, applyOn_cons]
     have ih' := ih (fun d hd => h d (List.mem_cons_of_mem _ hd))
-    rcases h a List.mem_cons_self with e0 | ⟨hne, hpr, hown⟩
+    rcases h a List.mem_cons_self with e0 | ⟨hne, hpr, hown, hb⟩
     · rw [e0, idU_app, idU_app, ih']
     · have hown' : isWhole s = true → NoOwn a (applyOn cs e ρ).w := by
         intro hw n u hl
         rw [applyOn_users] at hl
         exact hown hw n u hl
-      rw [step_comm_app cfg hne hp hown' hpr, ih']
+      rw [step_comm_app cfg hne hp hown' hpr hb, ih']
 
 /-- a list of sections of `c` none of which is a whole command (the registration path) commutes
-    with the local updates of all other connections -/
+    with the local updates of all other connections that carry no pending bump -/
 theorem run_comm_applyOn (cfg : Cfg) {c : Nat} {L : List Section}
     (hL : ∀ s ∈ L, isProg s = true ∧ isWhole s = false ∧ s.conn = c) {cs : List Nat}
-    {e : Nat → Upd} (h : ∀ d ∈ cs, e d = idU ∨ (c ≠ d ∧ (e d).Proper d)) (ρ : CState) :
+    {e : Nat → Upd} (h : ∀ d ∈ cs, e d = idU ∨ (c ≠ d ∧ (e d).Proper d ∧ (e d).cnt = none))
+    (ρ : CState) :
     runSections cfg L (applyOn cs e ρ) = applyOn cs e (runSections cfg L ρ) := by
   induction L generalizing ρ with
   | nil => rfl
   | cons s L ih =>
     obtain ⟨h1, h2, h3⟩ := hL s List.mem_cons_self
     rw [runSections_cons, runSections_cons, step_comm_applyOn cfg h1 (fun d hd => by
-      rcases h d hd with e0 | ⟨hne, hpr⟩
+      rcases h d hd with e0 | ⟨hne, hpr, hcn⟩
       · exact .inl e0
-      · exact .inr ⟨by rw [h3]; exact hne, hpr, fun hw => by rw [h2] at hw; cases hw⟩),
+      · exact .inr ⟨by rw [h3]; exact hne, hpr, (fun hw => by rw [h2] at hw; cases hw), .inl hcn⟩),
       ih (fun t ht => hL t (List.mem_cons_of_mem _ ht))]
 
 end Irc.C18G
